@@ -75,6 +75,17 @@ def faultOfLine (l : Line) : FlowX.FaultAt :=
   else if at'.startsWith "in:" then .issuing (String.ofList (at'.toList.drop 3))
   else .validation at'
 
+/-- deep5-C07: the audience the reference storage grants (`g.aud` on an exchange line: configuration of the storage, an input).
+    `Flow.mintTokens` records the client itself as the audience (what the storage did before it could be configured); the
+    refresh-token records the step CREATED (those `s0` did not hold) get the configured audience instead. -/
+def grantAudience (l : Line) (s0 s : _root_.Flow.St) : _root_.Flow.St :=
+  -- (only a step that removed no record: a rotation keeps the audience of the record it rotates)
+  if has l "g.aud" && s0.store.refresh.all (fun r0 => s.store.refresh.any (·.token == r0.token)) then
+    let upd : List RefreshReq := s.store.refresh.map fun r =>
+      if s0.store.refresh.any (·.token == r.token) then r else { r with audience := list l "g.aud" }
+    s.setStore { s.store with refresh := upd }
+  else s
+
 def modelStep (m : ModSt) (l : Line) (now : Int) : ModSt × String :=
   match str l "op" with
   | "reset" =>
@@ -104,7 +115,7 @@ def modelStep (m : ModSt) (l : Line) (now : Int) : ModSt × String :=
     -- deep3-C07: a registration is replaced
     ({ m with st := _root_.Flow.reRegister m.st (parseClient l "cl.0.") }, "done")
   | "exchange" =>
-    if has l "w.body" then let (s, o) := Wire.modelToken now m.st m.router l; ({ m with st := s }, o) else   -- deep3-C07: the request as it travelled
+    if has l "w.body" then let (s, o) := Wire.modelToken now m.st m.router l; ({ m with st := grantAudience l m.st s }, o) else   -- deep3-C07: the request as it travelled
     -- deep3-C04: a fault at the k-th storage call / a concurrent pair (Model/FlowC04X.lean); every other line goes the old way
     if has l "fault.at" then
       let (s, o) := FlowX.stepFault now m.st m.router (accessReq l) (str l "auth" == "assertion") (faultOfLine l)
@@ -131,7 +142,7 @@ def modelStep (m : ModSt) (l : Line) (now : Int) : ModSt × String :=
     if has l "w.body" && has l "fault.at" then let (s, o) := Wire.modelFault now m.st m.router l; ({ m with st := s }, o) else
     if has l "w.body" && bool l "conc.second" then ({ m with pending := "" }, m.pending) else
     if has l "w.body" && has l "conc" then let (s, oA, oB) := Wire.modelPair now m.st m.router l; ({ m with st := s, pending := oB }, oA) else
-    if has l "w.body" then let (s, o) := Wire.modelToken now m.st m.router l; ({ m with st := s }, o) else   -- deep3-C07
+    if has l "w.body" then let (s, o) := Wire.modelToken now m.st m.router l; ({ m with st := grantAudience l m.st s }, o) else   -- deep3-C07
     let (s, o) := _root_.Flow.step now m.st (.refresh m.router (refreshReq l) (str l "auth" == "assertion"))
     ({ m with st := s }, showOut o)
   | _ => (m, "?")
